@@ -210,3 +210,7 @@ func NextTimer() (rt.Duration, bool)   { return 0, false }
 
 // Conformance reports whether this is the conformance flavour (unrewritten code under testing/synctest).
 const Conformance = true
+
+// Epoch / DefaultEpoch / EpochBeforeIDWrap exist for API compatibility with the scheduler flavour;
+// the conformance flavour runs on the synctest clock and does not use them.
+var Epoch, DefaultEpoch, EpochBeforeIDWrap rt.Time
